@@ -155,7 +155,10 @@ class GStore(QueueStorage):
         c = self.ctl
         sid = c.sid(id)
         self._gate('set_recipients_delivered', sid)
+        self.ndelivered = getattr(self, 'ndelivered', 0) + 1
         try:
+            if self.ndelivered in getattr(self, 'fail_delivered', ()):
+                raise sq.QueueError('scripted storage failure')       # a fault of the storage, not of the queue: nothing recorded
             self._call(self.inner.set_recipients_delivered, id, rcpt_indexes)
         except Exception as e:  # noqa
             c.log(t='store', op='delivered_failed', id=sid, cls=type(e).__name__, now=c.now())
@@ -456,6 +459,7 @@ class Scenario(object):
             bq_enqueue = self.bq.enqueue
             self.bq.enqueue = lambda env: enqueue(env, via='configured')
         self.store.lazy_load = bool(cfg.get('lazy_load'))
+        self.store.fail_delivered = set(cfg.get('fail_delivered', ()))
         # preload: messages that are in the storage when the queue starts (accepted by an earlier incarnation), due at once
         for k in range(cfg.get('preload', 0)):
             m = 80 + k
